@@ -8,7 +8,7 @@ MC = {"quick": [("mc-faults-stall", "MCLdapConn", "MCConn_c04_stall.cfg", 900, 8
                    ("mc-liveness", "MCLdapConn", "MCConn_c04_live.cfg", 3400, 12)]}
 PROFILES = {"quick": [("faults", 300), ("mixed", 100), ("stallfaults", 200)],
             "thorough": [("faults", 5000), ("mixed", 2000), ("stallfaults", 3000)]}
-SCRIPTS = {"quick": [("GenConn_faults5.cfg", 6), ("GenConn_unbind4.cfg", 8)], "thorough": [("GenConn_faults5.cfg", 1), ("GenConn_unbind4.cfg", 2)]}
+SCRIPTS = {"quick": [("GenConn_faults5.cfg", 6), ("GenConn_unbind4.cfg", 20)], "thorough": [("GenConn_faults5.cfg", 1), ("GenConn_unbind4.cfg", 2)]}
 RULE = ("model: server close / reset / undecodable frame / write failure / unbind / last handle dropped allowed at every point; "
         "FailFast, NotStuck (no state with a dead connection, a waiting caller and no enabled internal step), UnbindCloses, "
         "DeliveredSurvives; thorough adds Termination under weak fairness; implementation: a fault of each kind injected at a random "
